@@ -159,23 +159,6 @@ def commit (row : MutRow) (s : State) (newd : Array Nat) (f : Nat → Nat) (newL
   let s4 := if row.clearDmap.isEmpty then s3 else { s3 with dmap := [] }
   if row.updateDmap.isEmpty then s4 else { s4 with dmap := updateDmap s4.dmap f }
 
-/-- `reassign_labels(labels, new_label, relabel)` -/
-def reassign (s : State) (ls : List Nat) (new : Nat) (relabel : Bool) : State × Except Err Unit :=
-  let (s, ok) := checkLabels s ls
-  if !ok then (s, .error Err.ValueError) else
-  if ls.isEmpty then (s, .ok ()) else
-  let (s, _) := readMax s
-  let (s, _) := readLabels s
-  if new > s.dtmax then (s, .error Err.Overflow) else
-  let g : Nat → Nat := fun l => if ls.contains l then new else l
-  let f : Nat → Nat :=
-    if relabel then
-      let labs2 := dLabels s.n (fun p => g (s.d p))
-      fun l => rankMap labs2 1 (g l)
-    else g
-  let newd := (Array.range s.n).map fun p => f (s.d p)
-  (commit reassignRow s newd f [] none, .ok ())
-
 /-- `relabel_consecutive(start_label)` -/
 def relabelConsecutive (s : State) (start : Int) : State × Except Err Unit :=
   let (s, nl) := readNlabels s
@@ -190,6 +173,24 @@ def relabelConsecutive (s : State) (start : Int) : State × Except Err Unit :=
   let f := rankMap labs st
   let newd := (Array.range s.n).map fun p => f (s.d p)
   (commit relabelRow s newd f ((List.range nl).map (st + ·)) old, .ok ())
+
+/-- `reassign_labels(labels, new_label, relabel)` -/
+def reassign (s : State) (ls : List Nat) (new : Nat) (relabel : Bool) : State × Except Err Unit :=
+  let (s, ok) := checkLabels s ls
+  if !ok then (s, .error Err.ValueError) else
+  -- nothing to reassign: `relabel` is still honoured
+  if ls.isEmpty then (if relabel then relabelConsecutive s 1 else (s, .ok ())) else
+  let (s, _) := readMax s
+  let (s, _) := readLabels s
+  if new > s.dtmax then (s, .error Err.Overflow) else
+  let g : Nat → Nat := fun l => if ls.contains l then new else l
+  let f : Nat → Nat :=
+    if relabel then
+      let labs2 := dLabels s.n (fun p => g (s.d p))
+      fun l => rankMap labs2 1 (g l)
+    else g
+  let newd := (Array.range s.n).map fun p => f (s.d p)
+  (commit reassignRow s newd f [] none, .ok ())
 
 def removeLabels (s : State) (ls : List Nat) (relabel : Bool) : State × Except Err Unit :=
   let (s, ok) := checkLabels s ls
